@@ -68,10 +68,12 @@ PROPS["C14"] = dict(
     family="hist",
     technique="TLA+ state machine of LinearHist/LogHist counters with exact lattice edges and an admissible-set specification of HistogramQuantile, enumerated by TLC over shapes x multisets of added values and replayed into the real histograms",
     level_text="TLC enumerates, for 7 shapes (thorough 13: dyadic and non-dyadic linear widths, log bases 2..10 with 1..4 bins per power), every multiset of up to 4 (thorough 6) added lattice values - edges, one step either side, up to a full bin below the first edge, far outside - checking conservation and that exactly one counter moves per Add; each case carries the expected counters and, for q = k/16, the admissible set of HistogramQuantile under both rank conventions; the binder adds the values to the real histogram one at a time, compares counters, BinToValue, quantiles (also through a user-defined Histogram), monotonicity in q and the IQR identity; a panic is a violation",
-    level_note="Trusted: TLC, binder comparison code, math.Pow for LogHist reference edges. Values exactly on an edge whose float representation is inexact may fall on either side (statement). Long random Add sequences are not yet trace-validated (gen direction only).",
+    level_note="Trusted: TLC, binder comparison code, math.Pow for LogHist reference edges. Values exactly on an edge whose float representation is inexact may fall on either side (statement). Recorded random Add sequences (random shapes with 1..50 bins, bases 2..10, up to 500 values) are validated by HistTrace.tla (counter conservation, edge-determined bins, quantile bin containment under one rank convention, monotonicity in q).",
     stages=[
         dict(name="gen", kind="gen", module="Hist.tla", cfg="Hist_gen.cfg",
              consts=dict(Shapes={"quick": "ShapesQuick", "thorough": "ShapesThorough"}, Depth={"quick": 4, "thorough": 6})),
+        dict(name="trace", kind="trace", module="HistTrace.tla", cfg="HistTrace.cfg",
+             record_args={"quick": ["-n", 120, "-adds", 120], "thorough": ["-n", 3000, "-adds", 500]}),
     ],
 )
 
